@@ -46,6 +46,12 @@ fn mk_operand(k: &str, sh: Shape, side: usize, draw: usize, op: &str, rng: &mut 
   let mut e = Vec::new();
   for i in 0..n {
     let sc = if k == "bool" { Sc::B(rng.chance(1, 2)) }
+    else if draw == 0 && is_cmp(op) {
+      // comparisons: both sides range over the same three values in different patterns, so that
+      // every output position sees ties, less-than and greater-than pairs (also under broadcasting)
+      let v = if side == 0 { 6 + ((i * 2 + i / 3) % 3) as i64 } else { 6 + ((i + 1 + i / 2) % 3) as i64 };
+      small_val(k, v)
+    }
     else if draw == 0 {
       if side == 0 {
         let mut v = 6 + i as i64;
